@@ -37,7 +37,7 @@ func init() {
 		Explain: "Decided (structural necessary conditions of token matching): (R1) the registration primitive is atomic – Map.LoadOrStore is a single critical section (same obligation as C14.R3, re-derived here); " +
 			"(R2) at every registration of a continuation in a token- or ID-keyed table the `loaded` result is branched on, the already-registered edge returns an error without storing over the first entry, and on the stored edge every exit removes the same key (defer, direct, or a cleanup function handed to the caller who must run it); " +
 			"(R3) key agreement: every store and every dispatch lookup of the token tables uses Token().Hash() of the request respectively the received message, and Token.Hash is CRC-64 over the token bytes; " +
-			"(R4) one-shot, non-blocking hand-over: dispatch takes the continuation out of the table (LoadAndDelete) or the continuation's send is non-blocking; the continuation marks the message hijacked before sending it; the channel has capacity ≥ 1; the waiter receives from that channel.",
+			"(R5) a duplicated (retransmitted) confirmable response is absorbed by the reply cache before dispatch – the acknowledgement of every received confirmable message is stored (shared with C05.R2/R3); (R4) one-shot, non-blocking hand-over: dispatch takes the continuation out of the table (LoadAndDelete) or the continuation's send is non-blocking; the continuation marks the message hijacked before sending it; the channel has capacity ≥ 1; the waiter receives from that channel.",
 		NotDecided: "Matching under adversarial response orders is not executed; CRC-64 collisions between different tokens (keys are hashes) are outside the claim.",
 		Run:        runC03,
 	})
@@ -89,6 +89,26 @@ func runC03(e *Env) {
 	}
 	if e.want("C03.R3") {
 		c03Keys(e)
+	}
+	if e.want("C03.R5") {
+		// duplicated responses: a retransmitted separate (confirmable) response must be recognised by the reply cache, or it is dispatched by
+		// token a second time – possibly to a later request that re-uses the token. Same obligations as C05.R2/R3, restricted to what C03 needs.
+		r.Rule("C03.R5", "paths", "acknowledgements of received confirmable messages are cached, so a duplicated response is not dispatched again", 4)
+		sub := *e
+		rep := core.NewReport("tmp", e.Tier, "other")
+		sub.R = rep
+		sub.Only = ""
+		runC05(&sub)
+		for _, o := range rep.Obls {
+			if strings.HasPrefix(o.Key, "C05.R3:") || strings.Contains(o.Key, "hit-skips-dispatch") || strings.Contains(o.Key, "lookup-before-dispatch") {
+				k := o.Key[strings.Index(o.Key, ":")+1:]
+				if o.Status == core.Discharged {
+					e.R.Ok("C03.R5", k, o.Pos, o.Detail)
+				} else if o.Status != core.Info {
+					e.R.Fail("C03.R5", k, o.Pos, o.Detail)
+				}
+			}
+		}
 	}
 	if e.want("C03.R4") {
 		c03Handover(e)
